@@ -44,6 +44,37 @@ def second_problem(sink):
     return {'first': [sink.items, sink.status()], 'second': [again.items, again.status()]}
 
 
+def run_sources(specs, items, order):
+    """The `sources=` entry point: one store shared by several multiplexed sources, each with its own pipeline.
+    specs[k] runs on Subject k; `order` lists which subject delivers its next item; completion in reverse order.
+    Returns the sinks (one per source)."""
+    from rx.subject import Subject
+    subjects = [Subject() for _ in specs]
+    store = new_store()
+    muxed = rs.state.with_store(store, sources=[s.pipe(rs.ops.mux_observable()) for s in subjects])
+    sinks = [Sink() for _ in specs]
+    for k in range(len(specs)):
+        sinks[k].subscribe_to(muxed[k].pipe(*(opspecs.build(specs[k]) + [rs.ops.demux_observable()])))
+    pos = [0] * len(specs)
+    for k in order:
+        subjects[k].on_next(items[k][pos[k]])
+        pos[k] += 1
+    for k in reversed(range(len(specs))):
+        subjects[k].on_completed()
+    return sinks
+
+
+def sources_problems(specs, items, order):
+    """[(source number, kind of difference, expected, observed, error)] against the reference interpreter per source."""
+    sinks = run_sources(specs, items, order)
+    out = []
+    for k, sink in enumerate(sinks):
+        exp = model_all(specs[k], items[k])
+        if sink.error is not None or sink.completed != 1 or sink.items != exp:
+            out.append((k + 1, str(diff_kind(exp, sink.items)), exp, sink.items, repr(sink.error)))
+    return out
+
+
 def run_twice(spec, items, mux=True):
     """ONE observable (one pipeline object, one store) subscribed twice in a row: (first sink, second sink)."""
     ctx = opspecs.Ctx()
